@@ -293,7 +293,16 @@ func (cb *crlBuilder) _doRebuild(sc *storageContext, forceNew bool, ignoreForceF
 
 		// if forceRebuild was requested, that should force a complete rebuild even if requested not too by forceNew
 		myForceNew := forceBuildFlag || forceNew
-		return buildCRLs(sc, myForceNew)
+		warnings, err := buildCRLs(sc, myForceNew)
+		if err != nil && cb.canRebuild {
+			// The CRL was not rebuilt, but whatever prompted this rebuild (a new
+			// revocation record, for instance) is already persisted. Re-arm the
+			// flag so the next reader or periodic run retries instead of serving
+			// the stale CRL; otherwise a retried revocation reports success
+			// ("already revoked") while the served CRL never lists the serial.
+			cb.forceRebuild.Store(true)
+		}
+		return warnings, err
 	}
 
 	return nil, nil
